@@ -203,3 +203,45 @@ pub fn generate_ber_into(ctx: &mut Ctx, seeds: &[(&'static str, Vec<u8>)], mutat
         }
     }
 }
+
+/// BER liberties that leave every signed octet string as it is: the to-be-signed part of every embedded certificate
+/// and the signed attributes are written as they are, no value changes (truth values, unused bits) anywhere - only the
+/// form of lengths and strings elsewhere.  `path` is the position of `nodes` in the object.
+fn ber_encode_safe_at(nodes: &[Node], rng: &mut Rng, rate: u64, path: &mut Vec<usize>) -> Vec<u8> {
+    let mut out = Vec::new();
+    for (i, n) in nodes.iter().enumerate() {
+        path.push(i);
+        // [0, 1, 0, 3, k, 0]: the to-be-signed part of the k-th certificate; [0, 1, 0, last, k, 3]: signed attributes
+        // under SignedData [0, 1, 0]: child 3 certificates, then (messages) CRLs, last signer infos; of each member the
+        // first child is the to-be-signed part (of a signer info: the version), the fourth the signed attributes
+        let protected = path.len() == 6 && path[..3] == [0, 1, 0] && path[3] >= 3 && (path[5] == 0 || path[5] == 3);
+        let really_constructed = n.tag & 0x20 != 0;
+        if protected {
+            out.extend(der::encode_nodes(std::slice::from_ref(n)));
+            path.pop();
+            continue;
+        }
+        let c = match &n.kids {
+            Some(k) if really_constructed => ber_encode_safe_at(k, rng, rate, path),
+            Some(k) => { let mut v = n.lead.clone(); v.extend(der::encode_nodes(k)); v }
+            None => n.content.clone(),
+        };
+        let lib = rng.below(16) < rate;
+        if !lib { out.push(n.tag); ber_len(&mut out, c.len(), false); out.extend(&c); }
+        else if really_constructed {
+            if rng.below(3) == 0 { out.push(n.tag); out.push(0x80); out.extend(&c); out.extend([0, 0]); }
+            else { out.push(n.tag); ber_len(&mut out, c.len(), true); out.extend(&c); }
+        } else if (n.tag == 0x04 || n.tag == 0x80) && rng.chance(2, 3) {
+            out.extend(split_octets(rng, n.tag, &c, 0));
+        } else {
+            out.push(n.tag); ber_len(&mut out, c.len(), true); out.extend(&c);
+        }
+        path.pop();
+    }
+    out
+}
+
+pub fn ber_encode_safe(obj: &[u8], rng: &mut Rng, rate: u64) -> Option<Vec<u8>> {
+    let tree = der::parse_nodes(obj)?;
+    Some(ber_encode_safe_at(&tree, rng, rate, &mut Vec::new()))
+}
